@@ -74,7 +74,7 @@ def run_shard(desc):
     raise HarnessError(k)
 
 
-RAW_TEXTS = ['(a)', '(a', '(', 'a)', ')', '(a|b)', '+a', '@a', '~a', '{a', 'a-b', 'a!b', '[a', 'a]', '()', '(!a)', '(-a)', 'x(a)', '\\(a\\)', '(.a)', '(a)*',
+RAW_TEXTS = ['!keep', '-keep', '!a', '-a', '!.a', '!*', '(a)', '(a', '(', 'a)', ')', '(a|b)', '+a', '@a', '~a', '{a', 'a-b', 'a!b', '[a', 'a]', '()', '(!a)', '(-a)', 'x(a)', '\\(a\\)', '(.a)', '(a)*',
              '?(a', '*(', '!(a']
 
 
@@ -131,7 +131,7 @@ def run_lists(desc):
     @seed(desc['seed'])
     @util.hyp_settings(desc['n'], shrink=False)
     @given(st.lists(st_text(), min_size=0, max_size=4), st.lists(st_text(), min_size=0, max_size=3), st.sampled_from(['fn', 'gl']),
-           st.booleans(), st.booleans(), st.integers(0, 2), st.integers(0, 2), st.booleans(), st.booleans(), st.randoms(use_true_random=False))
+           st.booleans(), st.booleans(), st.integers(0, 4), st.integers(0, 2), st.booleans(), st.booleans(), st.randoms(use_true_random=False))
     def test(inc_items, exc_items, mode, ext, dot, form, entry, negateall, nodir, rnd):
         pi = [t for t in (text_of(it, ext) for it in inc_items) if t]
         pe = [t for t in (text_of(it, ext) for it in exc_items) if t]
@@ -140,6 +140,12 @@ def run_lists(desc):
         if not pi and not pe:
             return
         out.stats['raw_or_loose_pieces'] += sum(1 for it in inc_items + exc_items if it[0] != 'ast')
+        if form in (3, 4) and not pe:
+            form = 0
+        if form in (0, 3, 4):
+            # with exclude= the NEGATE/NEGATEALL flags are dropped: every text is an ordinary pattern, whatever it starts with.
+            # The single-pattern oracle below evaluates them without NEGATE, so texts that begin with a marker are fine.
+            pass
         if form in (1, 2):
             # an inclusion pattern that begins with the exclusion marker must be written escaped to stay an inclusion
             # (`!(` under EXTMATCH is exempt and is produced unescaped by the renderer)
@@ -152,7 +158,7 @@ def run_lists(desc):
         dotflag = mod.DOTMATCH
         nodir = nodir and mode == 'gl'
         fl = base_flags(mode, ext, dot, [])
-        names = names_for(incs + excs, mode) + ['(a)', '(a', 'a)', '(', ')', '+a', '(a|b)', 'x(a)', '(.a)', '(a)a']
+        names = names_for(incs + excs, mode) + ['(a)', '(a', 'a)', '(', ')', '+a', '(a|b)', 'x(a)', '(.a)', '(a)a', '!keep', '-keep', 'keep', '!a', '-a', '!.a']
         match, _ = match_fn(mode)
         case = {'mode': mode, 'include': pi, 'exclude': pe, 'ext': ext, 'dot': dot, 'form': form, 'entry': entry,
                 'negateall': negateall, 'nodir': nodir, 'kind': 'lists'}
@@ -176,7 +182,13 @@ def run_lists(desc):
                             want = {n for n in want if not (n.endswith('/') or R.split_path(n)[1][-1:] in (['.'], ['..']))}
                     else:
                         want = set()
-                if form == 0:
+                if form in (3, 4):
+                    # exclude= given while NEGATE (form 3) or NEGATE|MINUSNEGATE (form 4) is set as well
+                    extra = mod.NEGATE | (mod.MINUSNEGATE if form == 4 else 0) | (mod.NEGATEALL if negateall else 0)
+                    got = call_entry(mode, entry, names, pi, fl_call | extra, exclude=pe)
+                    if not pi:
+                        want = set()
+                elif form == 0:
                     if not pe and not pi:
                         return
                     got = call_entry(mode, entry, names, pi, fl_call | (mod.NEGATEALL if negateall else 0),
@@ -481,7 +493,11 @@ def replay(case):
                     want = want and not (n.endswith('/') or R.split_path(n)[1][-1:] in (['.'], ['..']))
             else:
                 want = False
-        if form == 0:
+        if form in (3, 4):
+            got = n in call_entry(mode, case['entry'], [n], pi, flc | mod.NEGATE | (mod.MINUSNEGATE if form == 4 else 0), exclude=pe)
+            if not pi:
+                want = False
+        elif form == 0:
             got = n in call_entry(mode, case['entry'], [n], pi, flc, **({'exclude': pe} if pe else {}))
         elif form == 1:
             got = n in call_entry(mode, case['entry'], [n], case['list'], flc | mod.NEGATE)
